@@ -757,6 +757,11 @@ func (e *Exec) isZapPrivateComp(n string) bool {
 		// pooled scratch wrappers of error arrays: no contract relies on their contents across calls
 		return false
 	}
+	if strings.Contains(n, "zapcore.MapObjectEncoder.") {
+		// the in-memory map encoder is user-side state (a test helper handed around as an ObjectEncoder): its
+		// cursor may change under any call that is allowed to touch user state
+		return false
+	}
 	if strings.HasPrefix(n, "T:") || n == "$clk" || strings.HasPrefix(n, "G:") || n == "$held" || n == "$closed" || n == "$once" || n == "$panic" || n == "$unpub" {
 		return true
 	}
